@@ -163,7 +163,8 @@ def notesTranscriptC (it : NoteIter) : String :=
     " post=" ++ showOut (showOpt Note.showC) p1
 
 def showStrtabC (t : Slice) : String :=
-  "strtab(" ++ showContent t ++ "," ++ showOut showContent (strGetRaw t 0) ++ "/" ++ showOut showContent (strGetRaw t 1) ++ ")"
+  "strtab(" ++ showContent t ++ "," ++ showOut showContent (strGetRaw t 0) ++ "/" ++ showOut showContent (strGetRaw t 1) ++ "/" ++
+    showOut showContent (strGetRaw t t.len) ++ "/" ++ showOut showContent (strGetRaw t (t.len + 1)) ++ ")"
 
 def showReqC (r : Out (Option SymbolRequirement)) : String :=
   showOut (showOpt fun q => s!"req({showContent q.file},{showContent q.name},{q.hash},{q.flags},{showBool q.hidden})") r
